@@ -325,3 +325,113 @@ def malformed_builds(kinds):
                 yield dep_kind, how, True
             except BaseException:  # noqa: BLE001
                 yield dep_kind, how, False
+
+
+# ---------------------------------------------------------------------------------------------
+# descriptions that may break the build-time dependency rules (C11 / C13: "rejected when it is built")
+# ---------------------------------------------------------------------------------------------
+def gen_description(rng, max_n=6):
+    """A random description with debug / setup marks and NO sanitising: a non-debug node may depend on a debug node, a
+    setup node on an ordinary node or on the DAG's argument — through a positional argument, a keyword argument, an
+    indexed result or the activation flag."""
+    n = rng.randint(2, max_n)
+    dens = rng.choice([0.25, 0.45])
+    p_debug, p_setup = rng.choice([(0.3, 0.0), (0.0, 0.35), (0.25, 0.25), (0.15, 0.15)])
+    specs = []
+    for i in range(n):
+        preds = [j for j in range(i) if rng.random() < dens]
+        debug = rng.random() < p_debug
+        setup = (not debug) and rng.random() < p_setup
+        how = {str(j): rng.choice(["pos", "pos", "kw", "idx", "flag"]) for j in preds}
+        if sum(1 for h in how.values() if h == "flag") > 1:      # one activation flag at most
+            seen = False
+            for j in sorted(how):
+                if how[j] == "flag":
+                    how[j] = "flag" if not seen else "pos"
+                    seen = True
+        specs.append(dict(preds=preds, how=how, debug=debug, setup=setup, const=rng.random() < 0.25, arg=rng.random() < 0.15))
+    if rng.random() < 0.5:
+        # mostly valid: repair with the rules, then (maybe) break exactly one dependency
+        for s in specs:
+            if not s["debug"]:
+                s["preds"] = [p for p in s["preds"] if not specs[p]["debug"]]
+            if s["setup"]:
+                s["preds"] = [p for p in s["preds"] if specs[p]["setup"]]
+                s["arg"] = False
+            s["how"] = {k: v for k, v in s["how"].items() if int(k) in s["preds"]}
+    return dict(n=n, specs=specs)
+
+
+def description_rules(sc):
+    """The documented rules evaluated on the description: (debug rule broken, setup rule broken)."""
+    debug_bad = setup_bad = False
+    for s in sc["specs"]:
+        for p in s["preds"]:
+            if sc["specs"][p]["debug"] and not s["debug"]:
+                debug_bad = True
+            if s["setup"] and not sc["specs"][p]["setup"]:
+                setup_bad = True
+        if s["setup"] and s["arg"]:
+            setup_bad = True
+    return debug_bad, setup_bad
+
+
+def build_description(sc):
+    """Describe it with the real decorators.  Returns 'ACCEPT' | 'REFUSE' | 'EXC:<type>'."""
+    def mk(i, s):
+        def f(*a, **k):
+            return ("n%d" % i,) + a
+        f.__name__ = f.__qualname__ = "n%d" % i
+        return xn(f, debug=s["debug"], setup=s["setup"])
+    nodes = [mk(i, s) for i, s in enumerate(sc["specs"])]
+
+    def describe(x):
+        vals = []
+        for i, s in enumerate(sc["specs"]):
+            pos, kw = [], {}
+            for j in s["preds"]:
+                h = s["how"].get(str(j), "pos")
+                if h == "pos":
+                    pos.append(vals[j])
+                elif h == "kw":
+                    kw["k%d" % j] = vals[j]
+                elif h == "idx":
+                    pos.append(vals[j][0])
+                else:
+                    kw["twz_active"] = vals[j]
+            if s["const"]:
+                pos.append(7)
+            if s["arg"]:
+                pos.append(x)
+            vals.append(nodes[i](*pos, **kw))
+        return tuple(vals)
+    describe.__name__ = describe.__qualname__ = "described"
+    try:
+        threadsafe_make_dag(describe, 2, False)
+        return "ACCEPT"
+    except BaseException as e:  # noqa: BLE001
+        if type(e).__name__ in ("TawaziBaseException", "TawaziUsageError"):
+            return "REFUSE"
+        return "EXC:" + type(e).__name__
+
+
+def description_block(qid, sc):
+    """Graph-driver block: positions 0..n-1 = the nodes, then one holder per constant, then the DAG argument's holder."""
+    n = sc["n"]
+    preds = [list(s["preds"]) for s in sc["specs"]]
+    consts = []
+    for i, s in enumerate(sc["specs"]):
+        if s["const"]:
+            consts.append(n + len(consts))
+            preds[i].append(consts[-1])
+    arg_holder = n + len(consts)
+    for i, s in enumerate(sc["specs"]):
+        if s["arg"]:
+            preds[i].append(arg_holder)
+    total = arg_holder + 1
+    preds += [[] for _ in range(total - n)]
+    debug = [s["debug"] for s in sc["specs"]] + [False] * (total - n)
+    setup = [int(s["setup"]) for s in sc["specs"]] + [0] * (total - n)
+    const = [0] * n + [1] * len(consts) + [0]
+    q = "valid %s ; %s" % (" ".join(map(str, setup)), " ".join(map(str, const)))
+    return graph_block(qid, preds, [0] * total, debug, [q])
